@@ -128,7 +128,7 @@ def main():
         }],
         "checks": checks,
         "not_applicable": na,
-        "notes": "Every check decides named structural clauses (necessary conditions) of its property by static analysis of the current source; see DESIGN.md section 5 for what each clause does and does not cover. known_findings.json lists genuine defects (known or fixed).",
+        "notes": "Every check decides named structural clauses (necessary conditions) of its property by static analysis of the current source; see DESIGN.md section 0 (as built: rules per property, repairs, known findings, seeded changes) and section 5 (what each clause does and does not cover). A rule whose structural pattern cannot be bound on a construct is recorded as not-evaluated in the evidence and does not fail; a rule fails only on positive evidence. known_findings.json lists genuine defects (known or fixed).",
     }
     with open(os.path.join(VERIF, "MANIFEST.json"), "w") as f:
         json.dump(m, f, indent=1)
